@@ -99,6 +99,14 @@ def check(run):
         er = [c for c in orr.calls() if (c.get('callee') or '').endswith('::erase') and q.render(orr, c.get('obj')) == 'm_recv_buffer']
         run.check(bool(er) and all(q.precedes(orr, parse[0], c) and 'req_len' in q.render(orr, c) for c in er), 'R4', 'request-consumed', H + '::on_read', orr.loc(),
                   'the parsed request is not removed from the receive buffer (it would be answered again)', 'erase(begin, begin + req_len) after the parse')
+        # ... and what is removed is the PREFIX of that length: erase(begin, begin + n) or erase(0, n); the one-argument
+        # position form erase(n) removes everything FROM n (the request stays, the bytes received after it are lost)
+        for c in er:
+            a_ = [q.render(orr, x).replace('this->', '') for x in c.get('args', [])]
+            pre = len(a_) == 2 and ((a_[0] in ('m_recv_buffer.begin()', 'm_recv_buffer.cbegin()') and a_[1].strip('()').startswith(a_[0])) or a_[0] in ('0', '(size_t)0', 'std::size_t(0)'))
+            run.check(pre, 'R4', 'request-consumed-as-prefix', H + '::on_read: ' + q.render(orr, c)[:60], orr.loc(c),
+                      'the erase after the parse does not remove the first req_len bytes (arguments: %s): with one position argument std::string::erase removes the TAIL - the answered request stays at the front and the bytes of the next, pipelined request are dropped' % ', '.join(a_),
+                      'erase(begin, begin + req_len) / erase(0, req_len)')
         keys = {q.render(orr, c['args'][0]) for c in orr.calls() if (c.get('callee') or '').split('::')[-1] == 'find' and q.render(orr, c.get('obj')) in ('m_handlers', 'm_stall_handlers') and c.get('args')}
         run.check(keys == {'req.path'}, 'R8', 'lookups-by-normalised-path', H + '::on_read', orr.loc(), 'the handler tables are not all looked up by the normalised path req.path (keys used: %s): a registered path requested with a query string or in non-normalised form misses its table' % sorted(keys),
                   'both tables are looked up by req.path')
